@@ -52,7 +52,7 @@ def gen_scenario(rng, cfg):
         else:
             ops.append({"op": "subst", "style": rng.choice(["word", "assign"]), "spelling": rng.choice(["back", "dollar"])})
     return {"prop": "C07", "ops": ops, "handler": cfg.get("handler", False) and rng.chance(50),
-            "childpark": bool(cfg.get("childpark")), "lines": []}
+            "childpark": bool(cfg.get("childpark")), "lines": [], "launcher": rng.chance(25)}
 
 
 class Member:
@@ -175,11 +175,15 @@ class C07Runner:
                 env["CICADA_ENABLE_SIG_HANDLER"] = "1"
             if self.sc.get("log_file"):
                 env["CICADA_LOG_FILE"] = os.path.join(sim.home, "cicada.log")
-            self.shell = PtyShell(sim, env_extra=env)
+            self.shell = PtyShell(sim, env_extra=env, launcher=bool(self.sc.get("launcher")))
             ev = sim.shell_event()
             if ev[0] != "msg" or not ev[1].startswith("hello"):
                 raise HarnessError("shell did not greet: %r" % (ev,))
+            sim.shell_said_hello(int(ev[1].split()[1]))
+            self.shell.pid = sim.shell_pid
             self.shell.pgid = int(ev[1].split()[2])
+            if self.sc.get("launcher"):
+                sim.probe("shell_started_by_a_launcher_not_group_leader")
             sim.shell_go()
             self.loop()
             return self.result
@@ -915,6 +919,24 @@ def explicit_cases():
         for handler in (False, True):
             out.append({"prop": "C07", "ops": [dict(o) for o in ops], "handler": handler, "childpark": False, "lines": [],
                         "config": "explicit_failed_handover", "adversarial_picks": 100000})
+    # the state `jobs` shows after (a) a member that was stopped alone -- and seen stopped -- is killed while the other
+    # one runs, (b) a stop directly followed by a continuation (in handler mode two separate notices), (c) the same for
+    # one member of two, then the other one stopped as well
+    SIGSTOP, SIGCONT, SIGKILL = int(signal.SIGSTOP), int(signal.SIGCONT), int(signal.SIGKILL)
+    def sig(member, s):
+        return {"op": "sig", "job": 0, "member": member, "sig": s}
+    sessions = [
+        [{"op": "launch", "bg": True, "n": 2, "codes": [0, 0, 0]}, sig(0, SIGSTOP), {"op": "jobs"}, sig(0, SIGKILL), {"op": "jobs"},
+         {"op": "empty"}, {"op": "jobs"}],
+        [{"op": "launch", "bg": True, "n": 1, "codes": [0, 0, 0]}, sig(0, SIGSTOP), sig(0, SIGCONT), {"op": "jobs"}, {"op": "empty"},
+         {"op": "jobs"}],
+        [{"op": "launch", "bg": True, "n": 2, "codes": [0, 0, 0]}, sig(1, SIGSTOP), sig(1, SIGCONT), {"op": "jobs"}, sig(0, SIGSTOP),
+         {"op": "jobs"}, sig(1, SIGSTOP), {"op": "jobs"}, {"op": "bg", "job": 0, "bare": False}, {"op": "jobs"}],
+    ]
+    for ops in sessions:
+        for handler in (False, True):
+            out.append({"prop": "C07", "ops": [dict(o) for o in ops], "handler": handler, "childpark": False, "lines": [],
+                        "config": "explicit_job_states", "adversarial_picks": 100000})
     return out
 
 
